@@ -21,11 +21,16 @@ Definition rexp (fe : frontend) (sb : bool) (t : N) (i : N) (r : irec) : irec :=
 Definition rexp_clean (fe : frontend) (sb : bool) (t : N) (i : N) (r : irec) : bool :=
   wants_cleanup (f_rec (sv_rec fe i (fire_rec sb t r))).
 
-(* one turn with the synchronous effect g of an event *)
-Definition rturn (fe : frontend) (mid : bool) (t : N) (g : irec -> eff) (i : N) (r : irec) : irec :=
-  f_rec (ws_rec fe t i (f_rec (sv_rec fe i (fire_rec false t (f_rec (g (if mid then fire_rec false t r else r))))))).
+(* one turn with the synchronous effect g of an event; [sb] = strictness of the timers run after it *)
+Definition rturn_g (fe : frontend) (mid sb : bool) (t : N) (g : irec -> eff) (i : N) (r : irec) : irec :=
+  f_rec (ws_rec fe t i (f_rec (sv_rec fe i (fire_rec sb t (f_rec (g (if mid then fire_rec false t r else r))))))).
+Definition rturn_clean_g (fe : frontend) (mid sb : bool) (t : N) (g : irec -> eff) (i : N) (r : irec) : bool :=
+  wants_cleanup (f_rec (sv_rec fe i (fire_rec sb t (f_rec (g (if mid then fire_rec false t r else r)))))).
+Definition rturn (fe : frontend) (mid : bool) (t : N) (g : irec -> eff) (i : N) (r : irec) : irec := rturn_g fe mid false t g i r.
 Definition rturn_clean (fe : frontend) (mid : bool) (t : N) (g : irec -> eff) (i : N) (r : irec) : bool :=
-  wants_cleanup (f_rec (sv_rec fe i (fire_rec false t (f_rec (g (if mid then fire_rec false t r else r)))))).
+  rturn_clean_g fe mid false t g i r.
+Lemma rexp_as_g fe sb t i r : rexp fe sb t i r = rturn_g fe false sb t keep i r. Proof. reflexivity. Qed.
+Lemma rexp_clean_as_g fe sb t i r : rexp_clean fe sb t i r = rturn_clean_g fe false sb t keep i r. Proof. reflexivity. Qed.
 
 (* ---- the timer test as a boolean ---- *)
 Definition fire_b (b : bool) (r : irec) : irec :=
@@ -48,7 +53,7 @@ Lemma rturn_as_b fe mid t g i r :
   rturn fe mid t g i r = rturn_b fe mid (due false (i_timer r) t) t g i r /\
   rturn_clean fe mid t g i r = rturn_clean_b fe mid (due false (i_timer r) t) g i r.
 Proof.
-  intros T. unfold rturn, rturn_clean, rturn_b, rturn_clean_b. rewrite !fire_rec_b.
+  intros T. unfold rturn, rturn_clean, rturn_g, rturn_clean_g, rturn_b, rturn_clean_b. rewrite !fire_rec_b.
   assert (E : i_timer (f_rec (g (if mid then fire_b (due false (i_timer r) t) r else r))) = i_timer r).
   { rewrite T. destruct mid; [apply fire_b_timer | reflexivity]. }
   rewrite E. split; reflexivity.
